@@ -164,7 +164,21 @@ def run(rep, tier):
                     # the lookup loop needs the per-path outcome of each _advance_parsing call (toggle vs. consume): no exit compaction there
                     comp = ('_process_one',) if f == 'binson_parser_field_with_length' else ('_process_one', '_advance_parsing')
                     tasks.append((f, lb, {'compact': comp, 'weight': runner.WEIGHT.get(f, 1)}))
-            results = runner.run(mod, tasks, hooks_cls=LibHooks, post=post)
+            results = runner.run(mod, tasks, hooks_cls=LibHooks, post=post, tolerate=True)
+            good = []
+            for r in results:
+                if r['ok']:
+                    good.append(r)
+                elif 'did not stabilise' in r.get('error', ''):
+                    # no invariant, hence no ranking, could be established for a loop in this context: termination is not shown
+                    rep.ob(False, '%s:RANK:unstable' % r['fn'],
+                           'C16 %s [%s] (%s): %s - no ranking argument can be given for that loop in this calling context' % (
+                               r['fn'], r['label'], tag, r['error'].split('AnalysisBroken: ')[-1]),
+                           'the abstract interpretation of the loop did not reach a fixpoint within the widening budget; on the unchanged tree it does')
+                else:
+                    from engine.common import AnalysisBroken
+                    raise AnalysisBroken('analysis of %s [%s] failed: %s' % (r['fn'], r['label'], r['error']))
+            results = good
             seen = {}
             for r in results:
                 for L in r['extra']:
